@@ -51,6 +51,7 @@ Proof.
   - destruct (address_at pos (negb true)); [|discriminate].
     destruct (value_eqv _ _); [|discriminate]. injection H as _ Hp. now rewrite Hp.
   - destruct (eval code_ops _ e []) as [[v c]|]; [|discriminate].
+    destruct (true && match v with VFailed => true | _ => false end); [discriminate|].
     destruct (value_identical _ _); [|discriminate]. injection H as _ Hp. now rewrite Hp.
   - destruct (nth_error (s_instr st) i) as [d|] eqn:Hd; [|discriminate].
     destruct (resolve_encoding defs _ (negb true) (i_matches d)) as [[b|]|]; try discriminate.
